@@ -469,8 +469,10 @@ def r8_r10_driver(ck):
             kind = "mate value"
         if line_empty_test(tb.operand(t["discr"])) is not None:
             kind = "root without a line"
+        if c[0] == "call" and c[1].endswith("CancellationToken::is_cancelled"):
+            kind = "stop requested"
         ck.req(kind is not None, "R10.loop_exits", "exit on %s" % show(c)[:60], it.where(t.get("line")),
-               "the deepening loop can stop on a condition that is neither the depth limit, a mate value, an interrupt nor a root without moves: %s" % show(c)[:100])
+               "the deepening loop can stop on a condition that is neither the depth limit, a mate value, an interrupt / stop request nor a root without moves: %s" % show(c)[:100])
     ck.floor("R10.loop_exits", n_exit, 3, "exits of the deepening loop")
 
 
